@@ -428,6 +428,21 @@ func (p c11) kinds(c *core.Ctx, k int) {
 			}
 			return false
 		}},
+		{"uses-augment-case", "grouping gr { container t { choice ch { case a { leaf a1 { type string; } } } } } uses gr { augment \"t/ch\" { case g { " + iff + " leaf gx { type string; } } } }", func(m *meta.Module) bool {
+			if ch, ok := meta.Find(m, "t/ch").(*meta.Choice); ok {
+				_, found := ch.Cases()["g"]
+				return found
+			}
+			return false
+		}},
+		{"shorthand-case-leaf", "container t { choice ch { leaf g { " + iff + " type string; } leaf other { type string; } } }", func(m *meta.Module) bool {
+			// the implied case goes with its only member
+			if ch, ok := meta.Find(m, "t/ch").(*meta.Choice); ok {
+				_, found := ch.Cases()["g"]
+				return found
+			}
+			return false
+		}},
 		{"refine", "grouping gr { leaf r1 { type string; } leaf r2 { type string; } leaf r3 { type string; } } uses gr { refine r1 { description \"first\"; } refine r2 { " + iff + " description \"g\"; } refine r3 { description \"third\"; } }", func(m *meta.Module) bool {
 			for _, d := range m.DataDefinitions() {
 				if d.Ident() == "r2" {
